@@ -38,3 +38,14 @@ Theorem C09_current_tree_sequential :
     committed got = committed seq /\ written got = written seq /\ tx_result got = tx_result seq /\ ptr got = ptr seq.
 Proof. exact isolated_equals_sequential. Qed.
 Print Assumptions C09_current_tree_sequential.
+
+(** Every field of the singleton structs shared by DeliverTx and requests (evm Keeper, bank keeper wrapper,
+    collections descriptors, the precompile objects built once by InitPrecompiles) and every package-level
+    variable of x/evm is classified in the hand-maintained table of Sites.v (immutable after construction /
+    store-backed / registry / per-call / the one guarded pointer).  A NEW field or variable — a cache, a flag,
+    a counter on a process-wide singleton — breaks this obligation until it is classified. *)
+Theorem C09_shared_mutable_state_known :
+  forallb field_known shared_fields = true /\ forallb var_known package_vars = true /\
+  guarded_fields = [("x/evm/keeper", "NibiruBankKeeper", "StateDB", "*statedb.StateDB")]%string.
+Proof. repeat split; vm_compute; reflexivity. Qed.
+Print Assumptions C09_shared_mutable_state_known.
